@@ -18,7 +18,7 @@ var c02TwoCleanups = []Beh{BCleanupSkipCleanupPanic, BCleanupSkipCleanupFatal, B
 
 func c02Alphabet(ctx string) []Beh {
 	switch ctx {
-	case "custom-guarded": // only what is signalled through the methods of T survives a recover() in user code
+	case "custom-guarded", "custom2-guarded": // only what is signalled through the methods of T survives a recover() in user code
 		return []Beh{BFatalA, BFatal, BFailNowC, BErrorf, BError, BFail, BCleanupErrorf, BCleanupFatal, BErrorfThenFatalA, BErrorEmpty, BErrorfReject, BCleanupErrorfSkip, BErrorfSkip, BErrorfThenPanic, BCleanupFatalThenPanic, BCleanupErrorfCleanupSkipThenSkip, BPass, BCleanupPass}
 	case "body", "custom", "custom2":
 		return append(append(append([]Beh{}, AllFalsifying...), c02TwoCleanups...), BSkip, BSkipNow, BSkipf, BPass, BCleanupPass, BCleanupSkip)
@@ -37,7 +37,7 @@ func c02Units(tier string, seed int64) []Unit {
 		steps  int
 	}
 	var scs []sc
-	for _, ctx := range []string{"body", "custom", "custom2", "action", "invariant", "custom-guarded"} {
+	for _, ctx := range []string{"body", "custom", "custom2", "action", "invariant", "custom-guarded", "custom2-guarded"} {
 		for _, n := range []int{1, 5} {
 			scs = append(scs, sc{ctx, BPass, n, 3})
 			if ctx == "body" || ctx == "custom" {
@@ -137,8 +137,8 @@ func c02Units(tier string, seed int64) []Unit {
 					Replay: map[string]any{"engine": "subprocess", "godebug": "panicnil=1", "ctx": f[1]}})
 			}
 		}
-		if n != 8 {
-			c.R.HarnessErr = "panicnilprobe printed " + fmt.Sprint(n) + " results, want 8: " + trunc(string(out), 400)
+		if n != 9 {
+			c.R.HarnessErr = "panicnilprobe printed " + fmt.Sprint(n) + " results, want 9: " + trunc(string(out), 400)
 		}
 	}})
 	return units
@@ -177,6 +177,19 @@ func PanicNilProbeMain() {
 	env2 := NewEnv(nil, prog2.Base)
 	log2 := RunCheck(prog2, env2, Config{Checks: 3, Seed: 5, ShrinkMS: 3, NoFailFile: true, Name: "TestPanicNil"})
 	fmt.Printf("probe %s failed=%v class=%s\n", "cleanup-after-skip", log2.TB.IsFail, log2.Verdict().Class)
+	// a Cleanup function registered by a Custom generator function executes panic(nil)
+	prog3 := &LazyProgram{Name: "custom-cleanup-panics-nil", Base: func(string, string) Beh { return BPass }, Body: func(t *rapid.T, e *Env) {
+		g := rapid.Custom(func(it *rapid.T) uint64 {
+			x := rapid.Uint64().Draw(it, "x")
+			it.Cleanup(func() { var nothing any; panic(nothing) })
+			return x
+		})
+		e.cur.Signalled = append(e.cur.Signalled, BPanicNil)
+		e.cur.Draws = fmt.Sprint(g.Draw(t, "v"))
+	}}
+	env3 := NewEnv(nil, prog3.Base)
+	log3 := RunCheck(prog3, env3, Config{Checks: 3, Seed: 5, ShrinkMS: 3, NoFailFile: true, Name: "TestPanicNil"})
+	fmt.Printf("probe %s failed=%v class=%s\n", "custom-cleanup", log3.TB.IsFail, log3.Verdict().Class)
 	// Example: a predicate that executes panic(nil) is not a value
 	exOK := func() (ok bool) {
 		defer func() { ok = recover() != nil || ok }()
